@@ -13,15 +13,16 @@ RULE = ("sel (streams cycled round-robin, every seed runs every stream): populat
         "40/64/80) with 2..4 objectives, weights of mixed sign and magnitude, every k in 0..n+2 for n<=6 and 8 values of k "
         "otherwise, both nd values; value families: integer grids, duplicates, pairs, pairwise-distinct, antichain, layers "
         "(fronts of size 1 and 2), chain, all-negative / mixed-sign, decimal fractions, near-constant objective "
-        "(1000.0039..1000.0041), values 0..3 ulps apart; the fitnesses carry stale crowding_dist attributes in every third "
+        "(1000.0039..1000.0041), large offset with tiny irregular spread (1e6 + i*1e-4, timestamps; relative range <= 1e-9), "
+        "values 0..3 ulps apart; the fitnesses carry stale crowding_dist attributes in every third "
         "case and every fourth case chains a second selNSGA2 call on the result of the first; every multiset of n<=4 points "
         "of {0,1,2}^2; end-to-end model comparison on the 'exact' family (integer values, 2 or 4 objectives, every front's "
         "range a power of two); crowd: direct calls of assignCrowdingDist on arbitrary lists of the same value families. "
         "Non-trivial = a selection that cuts a front (0 < k < n) or a crowd call with at least 3 individuals")
 EXHAUSTIVE = {"quick": False, "thorough": False}
 TIME_BUDGET = {"quick": 55, "thorough": 840}
-CASE_TIMEOUT = 2           # selecting among <= 80 individuals takes milliseconds; 2 s without an answer is a hang
-MIN_CASES = 40
+CASE_TIMEOUT = 5           # selecting among <= 80 individuals takes milliseconds; 5 s without an answer is a hang
+MIN_CASES = 2000
 TRUSTED = ["IEEE-754: on the 'exact' family all quotients/sums of assignCrowdingDist are exact, so the Rat model equals the "
            "float implementation; elsewhere distances are compared with relative tolerance 1e-9 and the cut is replayed on "
            "the implementation's own (float) distances transported exactly",
@@ -316,7 +317,7 @@ def exact_ok(w, popvals):
 
 
 INT_KINDS = ["grid3", "distinct", "antichain", "layers", "grid5", "chain", "dups", "distinct", "pairs", "grid9"]
-FLOAT_KINDS = ["neg", "frac", "nearrange", "mixed", "neartie"]
+FLOAT_KINDS = ["neg", "offset", "frac", "nearrange", "offset", "mixed", "neartie"]
 NEAR_BASES = [0.3, 0.1 + 0.2, 0.7, 1.1, 2.675, 1000.004, 123456.789]
 
 
@@ -394,6 +395,25 @@ def gen_pop(rng, n, m, kind):
                         break
                 q.append(fl(x))
             pop.append(q)
+    elif kind == "offset":
+        # one objective with a large offset and a tiny, irregular spread (a cost around 1e6 that differs in the 4th
+        # decimal, timestamps a few ms apart): pairwise distinct, non-zero range, relative range <= 1e-9; the other
+        # objectives are evenly spaced so that the offset objective decides the crowding order (one antichain)
+        off, step = rng.choice([(1e6, 1e-4), (1e6, 2.5e-5), (1.7e9, 0.0625), (1e12, 16.0), (-1e6, 1e-4)])
+        pos, cur = [], 0
+        for _ in range(n):
+            pos.append(cur)
+            cur += rng.choice([1, 1, 2, 3, 4])
+        scale = max(1, pos[-1]) / 9.0 if pos[-1] > 9 else 1.0
+        xs = [off + (q / scale) * step for q in pos]
+        j0 = rng.randrange(2)
+        pop = []
+        for j in range(n):
+            q = [None, None] + [3 * j + 1 for _ in range(m - 2)]
+            q[j0] = fl(xs[j])
+            q[1 - j0] = 2 * (n - j)
+            pop.append(q)
+        rng.shuffle(pop)
     elif kind == "nearrange":
         # an antichain whose first objective is almost constant: 1000.0039 .. 1000.0041 (non-zero range, "close")
         ys = sorted(rng.sample(range(-2 * n, 3 * n + 3), n), reverse=True)
